@@ -347,6 +347,21 @@ func opMutate(g *G, name string) (interface{}, []uint64, int, interface{}) {
 	if grownReg != nil {
 		pop = grownReg
 	}
+	// a registry is shared by genomes of ONE population, which all have the same number of traits: drop records that name
+	// a trait this genome does not have (false alarm of the thorough tier, round 6: g.Traits[inn.NewTraitNum] out of range
+	// when a 3-trait start genome met the records of a 4-trait lineage)
+	if n := len(gn.Traits); n > 0 {
+		raw := genetics.VerifPopInnovationsRaw(pop)
+		kept := make([]genetics.Innovation, 0, len(raw))
+		for _, r := range raw {
+			if genetics.VerifInnovationFields(r).NewTraitNum < n {
+				kept = append(kept, r)
+			}
+		}
+		if len(kept) != len(raw) {
+			genetics.VerifPopSetInnovations(pop, kept)
+		}
+	}
 	regMode := "pool"
 	switch g.intn(4) {
 	case 0:
